@@ -81,6 +81,44 @@ class VSubOrganizationOf(PropertyDescriptor, TransitiveProperty):
     ...
 
 
+@dataclass
+class VUnit(Symbol):
+    """transitive property with a NON-transitive inverse and a sub-property"""
+    name: str
+    part_of: List[VUnit] = field(default_factory=list)
+    has_part: List[VUnit] = field(default_factory=list)
+    directly_part_of: List[VUnit] = field(default_factory=list)
+
+    def __hash__(self):
+        return hash(self.name)
+
+    def __repr__(self):
+        return self.name
+
+
+@dataclass
+class VHasPart(PropertyDescriptor, HasInverseProperty):
+    @classmethod
+    def get_inverse(cls) -> Type[VPartOf]:
+        return VPartOf
+
+
+@dataclass
+class VPartOf(PropertyDescriptor, TransitiveProperty, HasInverseProperty):
+    @classmethod
+    def get_inverse(cls) -> Type[VHasPart]:
+        return VHasPart
+
+
+@dataclass
+class VDirectlyPartOf(VPartOf):
+    pass
+
+
+VUnit.part_of = VPartOf(VUnit, "part_of")
+VUnit.has_part = VHasPart(VUnit, "has_part")
+VUnit.directly_part_of = VDirectlyPartOf(VUnit, "directly_part_of")
+
 VPerson.works_for = VWorksFor(VPerson, "works_for")
 VPerson.member_of = VMemberOf(VPerson, "member_of")
 VCEO.head_of = VHeadOf(VCEO, "head_of")
@@ -95,6 +133,9 @@ FIELDS = {
     (VCEO, "head_of"): (VHeadOf, True),
     (VCompany, "members"): (VMember, False),
     (VCompany, "sub_organization_of"): (VSubOrganizationOf, False),
+    (VUnit, "part_of"): (VPartOf, False),
+    (VUnit, "has_part"): (VHasPart, False),
+    (VUnit, "directly_part_of"): (VDirectlyPartOf, False),
 }
 ROLE_TAKER_FIELD = {VCEO: "person"}
 
